@@ -196,6 +196,30 @@ theorem view_write_outside_unchanged (layers : List Layer) (k bk k' : Key) (v : 
 
 example : xlate true [.lview [98, 47], .cache, .pview [97, 47]] [120] = some (.ok [97, 47, 98, 47, 120]) := by rfl
 
+/-- the entry a Get returns through any stack of views, caches and encoding layers carries the key that was asked
+for (F42, repaired: `physical.View.Get` used to truncate the key in place on the cache's own object, so this held
+only for the first read of a key) -/
+theorem view_get_key_roundtrip (write : Bool) (layers : List Layer) (k bk : Key)
+    (h : xlate write layers k = some (.ok bk)) : keyBack layers bk = k := keyBack_xlate write layers k bk h
+
+/-- hence every successful model Get reports the requested key -/
+theorem get_reports_requested_key (st : St) (k : Key) (v : Val) (k' : Key) (h : doGet st k = .got v k') : k' = k := by
+  unfold doGet at h
+  split at h
+  · exact absurd h (by simp)
+  · exact absurd h (by simp)
+  · rename_i bk hx
+    have hk := keyBack_xlate false _ k bk hx
+    have aux : ∀ r, entryRes st bk r = .got v k' → k' = k := by
+      intro r hr
+      unfold entryRes at hr
+      split at hr
+      · exact absurd hr (by simp)
+      · cases hr; exact hk
+    repeat' (first | exact aux _ h | exact absurd h (by simp) | split at h)
+
+example : keyBack [.pview [102,111,111,47], .cache] [102,111,111,47,102,111,111,47,98] = [102,111,111,47,98] := by decide
+
 /-! ### well-formed continuation tokens, paging, scanning -/
 
 /-- on the inputs every in-tree caller produces — a slash-terminated prefix of ordinary segments and an `after` that is
